@@ -18,7 +18,7 @@ TRUSTED = ['Gen/Classes.v regenerated from the source on every run',
 ASSUMPTIONS = ['registry-provided repetition counts are resolved by the harness to their current value (the model takes a number)']
 RULE = ('random build programs with raised nesting (depth <= 3) and repetition counts 1-4 at every level, plus single repeated flat blocks (for the n*T clause); '
         'observed: unrolled listing and duration, repetition counts afterwards, unrolled twice; non-trivial: contains a sub-circuit with count >= 2 and >= 2 leaves Plus ~13% structured shapes (coregen.gen_structured: parallel first blocks of unequal length under two levels of repetition with a follower of the first, a repeated block starting with a plain operation and containing a repeated block, two relation branches of unequal depth and length meeting through a barrier, a long chain beside a short operation followed by a repeated block, an early-starting operation in a doubly nested block).'
-        ' Repetition counts are fixed numbers or, for every third nested block (a deterministic function of the input), provided by a shared repetition registry.')
+        ' Repetition counts are fixed numbers or, for every third nested block (a deterministic function of the input), provided by a shared repetition registry.' ' After apply_modifiers() every registry-provided count is raised by 2 before the counts are read and the circuit is unrolled a second time; registry durations are written only after the build.')
 
 
 def gen_cases(rng, tier):
